@@ -10,6 +10,7 @@ in the stated order; (5) a RerouteWSGI target must receive the very environ obje
 entry intact, and its status / headers / body must be relayed verbatim."""
 import gc
 import os
+import re
 import io
 import shutil
 import tempfile
@@ -33,7 +34,7 @@ REQUIRED_REACH = ['validated:plain', 'validated:stream', 'validated:rendered', '
                   'validated:304', 'validated:redirect', 'validated:404', 'validated:405', 'validated:500', 'validated:debug-500',
                   'validated:debug-404', 'validated:meta', 'validated:gzip', 'validated:cache', 'validated:head', 'validated:post',
                   'files-opened', 'files-closed-after-close', 'wrapper-stacks:depth>=2', 'wrapper-stacks:embedded',
-                  'wrapper-stacks:no-routes', 'wrapper-stacks:siblings', 'wrapper-stacks:siblings-share-unique-type', 'reroute:raised', 'reroute:endpoint', 'reroute:relayed-verbatim', 'reroute:mode-rewrite', 'wrapper-stacks:subclass-type']
+                  'wrapper-stacks:no-routes', 'wrapper-stacks:siblings', 'wrapper-stacks:siblings-share-unique-type', 'reroute:raised', 'reroute:endpoint', 'reroute:relayed-verbatim', 'reroute:mode-rewrite', 'reroute:lazy-target', 'wrapper-stacks:subclass-type']
 NSHARDS = 8
 
 
@@ -98,6 +99,16 @@ class Scenario(object):
         def form(request):
             return Response('form:%s' % sorted(request.form.items()), mimetype='text/plain')
 
+        def custom_error(which, request):
+            from clastic.errors import HTTPException, BadRequest
+            code, message = {'ascii': (499, 'Client closed request'), 'cjk': (520, '\u672a\u77e5\u306e\u30a8\u30e9\u30fc'),
+                             'lines': (599, 'upstream said:\nline 1\r\nline 2'), 'latin': (420, 'caf\xe9 ferm\xe9'),
+                             'std-cjk': (404, '\u898b\u3064\u304b\u308a\u307e\u305b\u3093'), 'ctl': (598, 'bell\x07tab\there')}[which]
+            err = HTTPException(detail='detail of ' + which + ' \u2603\nsecond line', code=code, message=message)
+            if request.args.get('how') == 'return':
+                return err
+            raise err
+
         def cookie():
             r = Response('cookie')
             r.set_cookie('k', 'v; x')
@@ -117,6 +128,8 @@ class Scenario(object):
             Route('/only-get', lambda: Response('x'), methods=['GET']),
             Route('/boom', boom), Route('/err', err), Route('/form', form), Route('/cookie', cookie),
             Route('/empty', lambda: Response('')),
+            # HTTP errors with codes outside any registry and messages/details that are not header material
+            Route('/custom/<which>', custom_error),
             Route('/bytes', lambda: Response(b'\x00\xff\x10', mimetype='application/octet-stream')),
             Route('/html', lambda: Response('<html><body>é</body></html>', mimetype='text/html')),
             ('/meta/', MetaApplication()),
@@ -174,8 +187,44 @@ REQUESTS = [
     ('post', 'POST', '/form', '', {'Content-Type': 'application/x-www-form-urlencoded'}, b'a=1&b=%C3%A9', False),
     ('post', 'POST', '/plain', '', {'Content-Type': 'text/plain'}, b'ignored body', False),
     ('plain', 'GET', '/cookie', '', {}, b'', False), ('plain', 'GET', '/empty', '', {}, b'', False),
+    ('custom-error', 'GET', '/custom/ascii', '', {}, b'', False), ('custom-error', 'GET', '/custom/cjk', '', {}, b'', False),
+    ('custom-error', 'GET', '/custom/lines', 'how=return', {}, b'', False), ('custom-error', 'GET', '/custom/latin', '', {'Accept': 'text/html'}, b'', False),
+    ('custom-error', 'GET', '/custom/std-cjk', '', {'Accept': 'application/json'}, b'', False), ('custom-error', 'POST', '/custom/ctl', 'how=return', {}, b'', False),
+    ('custom-error', 'GET', '/custom/lines', '', {'Accept': 'application/xml'}, b'', True), ('custom-error', 'GET', '/custom/cjk', 'how=return', {}, b'', True),
     ('plain', 'GET', '/bytes', '', {}, b'', False), ('plain', 'GET', '/html', '', {}, b'', False),
 ]
+
+
+def status_line_problem(status):
+    """PEP 3333: a native string '<3 digits><space><reason>' that can go on the wire: ISO-8859-1 text without control
+    characters (a line break in it ends the status line and starts a header)"""
+    if type(status) is not str:
+        return 'status is %r, not a str' % (status,)
+    if not re.match(r'^[1-5][0-9][0-9] ', status):
+        return 'status %r does not start with a three-digit code and a space' % status
+    try:
+        status.encode('latin-1')
+    except UnicodeError:
+        return 'status %r cannot be encoded as ISO-8859-1' % status
+    if re.search(r'[\x00-\x1f\x7f]', status):
+        return 'status %r contains control characters' % status
+    return None
+
+
+def headers_problem(hdrs):
+    if type(hdrs) is not list:
+        return 'headers are %s, not a list' % type(hdrs).__name__
+    for item in hdrs:
+        if type(item) is not tuple or len(item) != 2 or type(item[0]) is not str or type(item[1]) is not str:
+            return 'header %r is not a pair of str' % (item,)
+        name, value = item
+        try:
+            name.encode('latin-1'), value.encode('latin-1')
+        except UnicodeError:
+            return 'header %r cannot be encoded as ISO-8859-1' % (item,)
+        if not re.match(r'^[!#$%&\'*+.^_`|~0-9A-Za-z-]+$', name) or re.search(r'[\x00-\x08\x0a-\x1f\x7f]', value):
+            return 'header %r is not valid on the wire' % (item,)
+    return None
 
 
 def is_input_side(exc):
@@ -232,6 +281,12 @@ def judge_exchange(sh, sc, kind, method, path, query, headers, body, debug, reco
     if len(ex.sr_calls) != 1:
         sh.violation('C13/start-response-count', '%s: start_response called %d times' % (brief, len(ex.sr_calls)), case)
         return
+    status, hdrs = ex.sr_calls[0][0], ex.sr_calls[0][1]
+    problem = status_line_problem(status) or headers_problem(hdrs)
+    if problem:
+        sh.violation('C13/invalid-status-or-header', '%s: %s' % (brief, problem), case)
+        return
+    sh.hit('status-line-and-headers-checked')
     if ex.sr_after_body:
         sh.violation('C13/start-response-after-body', '%s: body bytes before start_response' % brief, case)
         return
@@ -464,11 +519,24 @@ def judge_reroute(sh, rng):
     chunks = [b'first:', b'', bytes(rng.getrandbits(8) for _ in range(rng.randint(0, 40))), b':last']
     seen = {}
 
-    def target(environ, start_response):
+    lazy = rng.chance(0.4)
+
+    def eager_target(environ, start_response):
         seen['environ'] = environ
         seen['snapshot'] = dict(environ)
         start_response(status, list(hdrs))
         return iter(list(chunks))
+
+    def lazy_target(environ, start_response):
+        # a generator: nothing runs - start_response included - before the server asks for the first chunk
+        seen['environ'] = environ
+        seen['snapshot'] = dict(environ)
+        start_response(status, list(hdrs))
+        for c in chunks:
+            yield c
+    target = lazy_target if lazy else eager_target
+    if lazy:
+        sh.hit('reroute:lazy-target')
     mode = rng.pick(['redirect', 'redirect', 'rewrite', 'rewrite', 'strict'])
     branch = rng.chance(0.5)
     pattern = '/go/<x*>/' if branch else '/go/<x*>'
@@ -522,7 +590,8 @@ def judge_reroute(sh, rng):
     path = rng.pick(['/go/a/b', '/go/a/b/', '/go//a/b', '/go/a//b//']) if mode != 'strict' else ('/go/a/b/' if branch else '/go/a/b')
     canonical = path == ('/go/a/b/' if branch else '/go/a/b')
     reaches = canonical or mode == 'rewrite' or (mode == 'redirect' and not branch)
-    env = probe.make_environ(method, path, 'k=v', {'X-Orig': 'o', 'Cookie': 'c=1'}, b'payload' if method in ('POST', 'PUT') else b'')
+    env = probe.make_environ(method, path, 'k=v', {'X-Orig': 'o', 'Cookie': 'c=1', 'Proxy': 'http://proxy.test:3128', 'X-Forwarded-For': '10.0.0.1',
+                                                    'Authorization': 'Basic dTpw', 'Transfer-Encoding': 'identity', 'X-Empty': ''}, b'payload' if method in ('POST', 'PUT') else b'')
     env['verif.marker'] = marker = object()
     original = dict(env)
     ex = probe.call_wsgi(app, env)
